@@ -82,8 +82,8 @@ func init() {
 	reg("C02", "R", 60*time.Second, 15*time.Minute)
 	reg("C03", "S", 60*time.Second, 15*time.Minute)
 	reg("C04", "R", 60*time.Second, 15*time.Minute)
-	reg("C05", "R", 60*time.Second, 15*time.Minute)
-	reg("C06", "R", 60*time.Second, 15*time.Minute)
+	reg("C05", "R", 90*time.Second, 15*time.Minute)
+	reg("C06", "R", 90*time.Second, 15*time.Minute)
 	reg("C07", "R", 60*time.Second, 15*time.Minute)
 	reg("C08", "S", 60*time.Second, 15*time.Minute)
 	reg("C09", "S", 60*time.Second, 15*time.Minute)
@@ -92,9 +92,9 @@ func init() {
 	reg("C12", "R", 60*time.Second, 15*time.Minute)
 	reg("C13", "R", 60*time.Second, 15*time.Minute)
 	reg("C14", "R", 60*time.Second, 15*time.Minute)
-	reg("C15", "R", 60*time.Second, 15*time.Minute)
+	reg("C15", "R", 90*time.Second, 15*time.Minute)
 	reg("C16", "R", 60*time.Second, 15*time.Minute)
-	reg("C17", "S", 60*time.Second, 15*time.Minute)
+	reg("C17", "S", 90*time.Second, 15*time.Minute)
 	reg("C18", "R", 60*time.Second, 15*time.Minute)
 	reg("C19", "S", 60*time.Second, 15*time.Minute)
 	reg("C20", "R", 60*time.Second, 15*time.Minute)
